@@ -24,6 +24,7 @@ SLICE_FNS = {'from_slice', 'write_to_slice', 'from_cols_slice', 'write_cols_to_s
 INDEX_FNS = {'index', 'index_mut', 'col', 'col_mut', 'row', 'test', 'set', 'from_mat3_minor', 'from_mat4_minor',
              'from_mat3a_minor'}
 INT_PREFIXES = ('i8::', 'u8::', 'i16::', 'u16::', 'i32::', 'u32::', 'i64::', 'u64::', 'usize::')
+ATOMIC_FNS = {'write_to_slice', 'write_cols_to_slice'}
 FLOOR_ROOTS = 13000     # measured 13376 reachable non-generic roots per config
 FLOOR_DOC_PANIC = 400   # roots with at least one documented panic site (measured when armed)
 
@@ -80,6 +81,7 @@ def run(ctx):
         H = ctx.harness(cfg)
         n_roots = 0
         n_doc = 0
+        n_atomic = 0
         control_from_slice = False
         control_align_store = False
         for name, it in api_roots(F):
@@ -111,6 +113,17 @@ def run(ctx):
                     bad.append({'site': p.kind, 'in_fn': p.fn, 'file': p.file, 'line': p.line,
                                 'call_path': [s[0] for s in p.stack][-6:], 'why': why,
                                 'condition': tm.show(p.cond, 0, 5)[:300]})
+            # R-ATOMIC: a documented panic is raised before any caller-visible memory is written (no partially written destination)
+            if it.get('name') in ATOMIC_FNS and len(runs) == 1:
+                n_atomic += 1
+                late = [p for p in r.panics if p.cond is not tm.FALSE and p.dirty]
+                if late:
+                    p0 = late[0]
+                    ctx.violation('R-ATOMIC', cfg, name, {'file': it['file'], 'line': it['line'],
+                                  'problem': 'a panic site (%s in %s, line %s) is reachable after part of the destination has already been written: a too-short slice is left partially overwritten' % (p0.kind, p0.fn, p0.line),
+                                  'late_panic_sites': len(late)})
+                else:
+                    ctx.holds('R-ATOMIC', cfg, name)
             if doc:
                 n_doc += 1
                 if (it.get('name') == 'from_slice'):
